@@ -1,17 +1,13 @@
 (* C20 — invalid recipes are rejected with a recipe error, not an internal failure.
    Model: theories/Reject.v (snowfakery/parse_recipe_yaml.py, plugins.py resolve_plugin,
    data_generator.py generate / merge_options, data_generator_runtime.py get_referent_name and the
-   version assert, the exception wrappers of data_generator_runtime_object_model.py).
+   version check, the exception wrappers of data_generator_runtime_object_model.py), as repaired by
+   the fix: commits of notes/patches/C20_*.diff.
    Only statements here; proofs live in proofs/RejectP.v.
 
-   Full-strength statement (NOT provable of the code as it is — see the _refuted theorems below and
-   KNOWN_FINDINGS.json):
-     forall E ff mf doc, match validate E ff mf doc with Err (Internal _) => False | _ => True end
-     forall path leaf e, escape path leaf e = EDGE.
-   What is proved instead: the list of escape routes is complete (static: thirteen crash sites plus
-   whatever importlib / PyYAML raise on a plugin name or an included file; dynamic: leaves without a
-   handler below top-level `var` / `count` chains), each route is demonstrated (_refuted), and everything
-   else is a DataGenError. *)
+   The 22 defects found while this check was built (KNOWN_FINDINGS.json, `fixed: property=C20 ...`)
+   are repaired; their witnesses are the regression Examples at the end and
+   corpus/C20/repaired_sites.json. *)
 From Coq Require Import ZArith List String.
 From SFV Require Import Base Reject.
 From SFV.P Require Import RejectP.
@@ -20,125 +16,53 @@ Open Scope string_scope.
 Open Scope list_scope.
 
 (* ---------------------------------------------------------------- static half *)
-(* Whatever the document, the environment and the fuels: if validation (parse_recipe, merge_options,
-   the version assert, the random_reference scan) ends with a non-DataGenError exception, that exception
-   is one of the thirteen listed (type, file, function) sites, or an exception that importlib / PyYAML
-   raised on a plugin name / included file of the environment and that Snowfakery lets through.
-   In particular none of the other checked operations of the model (dict access on unchecked nodes,
-   attribute access on parse_element results, str methods, tuple unpacking, the asserts of
-   parse_fields / parse_object_template / line_num / check_identifier) can fire. *)
-Theorem C20_validate_never_crashes_partial :
+(* Whatever the document, the environment and the fuels: validation (parse_recipe, merge_options, the
+   version check, the random_reference scan) never ends with a non-DataGenError exception of Snowfakery's
+   own making.  None of the checked operations of the model (dict access on unchecked nodes, attribute
+   access on parse_element results, str methods, hashing, the asserts of parse_fields /
+   parse_object_template / line_num / check_identifier) can fire.  The only internal exceptions left are
+   those the environment hands in: a plugin module that raises while it is imported, PyYAML raising
+   something that is neither a YAMLError nor a ValueError while an included file is loaded. *)
+Theorem C20_validate_never_crashes :
   forall (E : env) (ffuel mfuel : nat) (doc : yaml) (site : string),
-    validate E ffuel mfuel doc = Err (Internal site) ->
-    In site known_crash_sites \/ In site (env_crashes E).
+    validate E ffuel mfuel doc = Err (Internal site) -> In site (env_crashes E).
 Proof. exact validate_never_crashes. Qed.
-Print Assumptions C20_validate_never_crashes_partial.
+Print Assumptions C20_validate_never_crashes.
 
-(* text PyYAML cannot load: a marked YAMLError becomes DataGenYamlSyntaxError; an unmarked one
-   (ReaderError) crashes parse_file; anything else PyYAML raises is not caught *)
+(* with an environment that does not fail (every plugin module imports, every included file is text PyYAML
+   accepts or rejects with YAMLError / ValueError): no internal failure at all *)
+Theorem C20_validate_never_crashes_sound_environment :
+  forall E ffuel mfuel doc,
+    env_crashes E = [] ->
+    match validate E ffuel mfuel doc with Err (Internal _) => False | _ => True end.
+Proof.
+  intros E ff mf doc HE. destruct (validate E ff mf doc) as [|[]] eqn:H; auto.
+  pose proof (validate_never_crashes _ _ _ _ _ H) as Hin. rewrite HE in Hin. exact Hin.
+Qed.
+Print Assumptions C20_validate_never_crashes_sound_environment.
+
+(* text PyYAML cannot load: YAMLError (with or without a position) and ValueError become
+   DataGenYamlSyntaxError; only other exception classes are not caught *)
 Theorem C20_unloadable_text :
   forall how, match @load_failure unit how with
-              | Err (DGE _) => how = LMarked
-              | Err (Internal s) =>
-                (how = LUnmarked /\ s = "AttributeError:parse_recipe_yaml.py:parse_file") \/ how = LExc s
+              | Err (DGE _) => how = LMarked \/ how = LUnmarked \/ how = LValueError
+              | Err (Internal s) => how = LExc s
               | _ => False
               end.
-Proof. intros [| |s]; cbn; auto. Qed.
+Proof. intros [| | |s]; cbn; auto. Qed.
 Print Assumptions C20_unloadable_text.
 
-(* every listed site is reachable: a minimal document per site (each one also fails like this on /repo,
-   corpus/C20/known_findings.json) *)
-Definition E0 := mkEnv [] [].
-Definition obj (rest : kvs) := YMap ((YStr "object", YStr "A") :: rest).
-Definition field_x (v : yaml) := obj [(YStr "fields", YMap [(YStr "x", v)])].
-Definition rr (args : yaml) := field_x (YMap [(YStr "random_reference", args)]).
-
-Definition witnesses : list (string * (env * yaml)) :=
-  [("AttributeError:parse_recipe_yaml.py:parse_file",
-    (mkEnv [(("", "a.yml"), FBad LUnmarked)] [], YSeq [YMap [(YStr "include_file", YStr "a.yml")]]));
-   ("IsADirectoryError:parse_recipe_yaml.py:parse_included_file",
-    (mkEnv [(("", "."), FDir)] [], YSeq [YMap [(YStr "include_file", YStr ".")]]));
-   ("TypeError:parse_recipe_yaml.py:parse_top_level_elements",
-    (E0, YSeq [YMap [(YStr "macro", YSeq [YStr "a"])]]));
-   ("ValueError:plugins.py:resolve_plugin_alternatives",
-    (E0, YSeq [YMap [(YStr "plugin", YStr "foo")]]));
-   ("IndexError:parse_recipe_yaml.py:parse_version",
-    (E0, YSeq [YMap [(YStr "snowfakery_version", YFloat FlNan)]]));
-   ("AssertionError:parse_recipe_yaml.py:parse_field",
-    (E0, YSeq [obj [(YStr "fields", YMap [(YStr "", YStr "x")])]]));
-   ("AttributeError:parse_recipe_yaml.py:parse_statement_list",
-    (E0, YSeq [obj [(YStr "friends", YSeq [YMap [(YInt 5, YStr "v")]])]]));
-   ("AttributeError:parse_recipe_yaml.py:parse_for_each_variable_definition",
-    (E0, YSeq [obj [(YStr "for_each", YMap [(YStr "value", YStr "x")])]]));
-   ("TypeError:data_generator.py:merge_options",
-    (E0, YSeq [YMap [(YStr "option", YSeq [YInt 1]); (YStr "default", YInt 3)]]));
-   ("AssertionError:data_generator_runtime.py:__init__",
-    (E0, YSeq [YMap [(YStr "option", YStr version_option); (YStr "default", YInt 7)]]));
-   ("KeyError:data_generator_runtime.py:get_referent_name",
-    (E0, YSeq [rr (YMap [(YStr "scope", YStr "y")])]));
-   ("UnboundLocalError:data_generator_runtime.py:get_referent_name",
-    (E0, YSeq [rr (YSeq [])]));
-   ("AttributeError:data_generator_runtime.py:get_referent_name",
-    (E0, YSeq [rr (YSeq [YMap [(YStr "a", YStr "b")]])]))].
-
-Theorem C20_refuted_known_sites_reachable :
-  map fst witnesses = known_crash_sites /\
-  forallb (fun w => match validate (fst (snd w)) 3 3 (snd (snd w)) with
-                    | Err (Internal s) => String.eqb s (fst w)
-                    | _ => false
-                    end) witnesses = true.
-Proof. split; vm_compute; reflexivity. Qed.
-Print Assumptions C20_refuted_known_sites_reachable.
-
-(* failures of the environment pass through unwrapped: `plugin: .x` (importlib raises TypeError) *)
-Example C20_refuted_plugin_import_error :
-  validate (mkEnv [] [(".x", PCrash "TypeError:plugins.py:resolve_plugin_alternatives")]) 3 3
-           (YSeq [YMap [(YStr "plugin", YStr ".x")]])
-  = Err (Internal "TypeError:plugins.py:resolve_plugin_alternatives").
-Proof. vm_compute. reflexivity. Qed.
-
-(* ---------------------------------------------------------------- termination *)
-(* The walk over the document is structurally recursive; fuel is consumed only by macro expansion and
-   file inclusion.  After the files are loaded, validation ends within any macro fuel above the ranks of
-   the mentioned macros, provided the macro reference graph is acyclic (rank decreases along every
-   mention, including mentions inside templates nested in a macro body). *)
-Theorem C20_terminates_partial :
-  forall (E : env) (ffuel mfuel : nat) (doc : yaml) (c : ctx) (rank : string -> nat),
-    load_file E ffuel "" doc ctx0 = Ok c ->
-    (forall name body, lookup_macro name (c_macros c) = Some body ->
-       forall nm, In nm (incl_names (YMap body)) -> (rank nm < rank name)%nat) ->
-    (forall y nm, In y (c_stmts c) -> In nm (incl_names y) -> (rank nm < mfuel)%nat) ->
+(* ---------------------------------------------------------------- termination ("never hangs") *)
+(* The walk over the document is structurally recursive; fuel is consumed only by macro expansion and file
+   inclusion, and both refuse to re-enter what is already on their stack: with more file fuel than the
+   environment has files and more macro fuel than the recipe has macros, validation never runs out of fuel. *)
+Theorem C20_terminates :
+  forall (E : env) (ffuel mfuel : nat) (doc : yaml),
+    (S (length (fenv E)) < ffuel)%nat ->
+    (forall c, load_file E ffuel [] "" doc ctx0 = Ok c -> (length (c_macros c) < mfuel)%nat) ->
     validate E ffuel mfuel doc <> Err OutOfFuel.
 Proof. exact validate_terminates. Qed.
-Print Assumptions C20_terminates_partial.
-
-Theorem C20_terminates_without_macros :
-  forall E ffuel mfuel doc c,
-    load_file E ffuel "" doc ctx0 = Ok c -> c_macros c = [] -> (0 < mfuel)%nat ->
-    validate E ffuel mfuel doc <> Err OutOfFuel.
-Proof. exact validate_terminates_without_macros. Qed.
-Print Assumptions C20_terminates_without_macros.
-
-(* what is missing from "never hangs": a macro whose friend template includes the macro again is
-   expanded without end (parent_macros is reset for friends) — RecursionError on /repo *)
-Definition friend_cycle :=
-  YSeq [YMap [(YStr "macro", YStr "m");
-              (YStr "friends", YSeq [YMap [(YStr "object", YStr "B"); (YStr "include", YStr "m")]])];
-        YMap [(YStr "object", YStr "A"); (YStr "include", YStr "m")]].
-Example C20_refuted_macro_friend_cycle :
-  validate E0 3 500 friend_cycle = Err OutOfFuel.
-Proof. vm_compute. reflexivity. Qed.
-(* ... whereas a cycle through `include:` alone is detected *)
-Example C20_ex_macro_include_cycle_rejected :
-  validate E0 3 500 (YSeq [YMap [(YStr "macro", YStr "m"); (YStr "include", YStr "m")];
-                           YMap [(YStr "object", YStr "A"); (YStr "include", YStr "m")]])
-  = Err (DGE "").
-Proof. vm_compute. reflexivity. Qed.
-(* a file that includes itself: file fuel runs out (RecursionError on /repo) *)
-Example C20_refuted_include_file_cycle :
-  let d := YSeq [YMap [(YStr "include_file", YStr "a.yml")]] in
-  validate (mkEnv [(("", "a.yml"), FDoc "k" d); (("k", "a.yml"), FDoc "k" d)] []) 50 3 d = Err OutOfFuel.
-Proof. vm_compute. reflexivity. Qed.
+Print Assumptions C20_terminates.
 
 (* ---------------------------------------------------------------- static faults come before any row *)
 Theorem C20_static_before_rows :
@@ -154,59 +78,115 @@ Proof. exact rows_only_after_validation. Qed.
 Print Assumptions C20_rows_only_after_validation.
 
 (* ---------------------------------------------------------------- dynamic half: the wrappers *)
-(* Any exception (of any class) raised at any leaf inside field rendering, for_each evaluation, friend
-   execution or the rendering of a function argument — at any depth below — leaves generate as a
-   DataGenError; so does any exception raised while a row is written or set up, a formula is compiled or
-   evaluated, a function is called, or the for_each value is checked, wherever that happens. *)
+(* Execution enters through a top-level statement: the first step of a path is a `var` or a template step
+   (for_each, count, field, friend), or the leaf is reached directly (context creation, row set-up, row
+   writing, the for_each check).  Along every such path, any exception (of any class) raised at the leaf
+   leaves generate as a DataGenError. *)
 Theorem C20_runtime_errors_wrapped :
+  forall (path : list step) (l : leaf) (e : exn),
+    rooted path l = true -> escape path l e = EDGE.
+Proof. exact escape_rooted. Qed.
+Print Assumptions C20_runtime_errors_wrapped.
+
+(* the same, position by position: anything inside field rendering, for_each evaluation, count evaluation,
+   friend execution, a `var`, or the rendering of a function argument — at any depth below — and every
+   leaf that has a handler of its own *)
+Theorem C20_runtime_errors_wrapped_everywhere :
   forall (pre post : list step) (l : leaf) (e : exn),
     escape (pre ++ STmplField :: post) l e = EDGE /\
     escape (pre ++ STmplForEach :: post) l e = EDGE /\
+    escape (pre ++ STmplCount :: post) l e = EDGE /\
     escape (pre ++ STmplFriend :: post) l e = EDGE /\
+    escape (pre ++ SVarExpr :: post) l e = EDGE /\
     escape (pre ++ SCallArg :: post) l e = EDGE /\
-    (In l [LWrite; LRowSetup; LEval; LCompile; LFunc; LForEachType] -> escape pre l e = EDGE).
+    (In l [LWrite; LRowSetup; LEval; LCompile; LFunc; LForEachType; LCtxTmpl; LCtxVar] ->
+     escape pre l e = EDGE).
 Proof.
   intros. repeat split.
   - apply wrapped_inside_field.
   - apply wrapped_inside_for_each.
+  - apply wrapped_inside_count.
   - apply wrapped_inside_friend.
+  - apply wrapped_inside_var.
   - apply wrapped_inside_call_arg.
   - apply wrapped_leaf.
 Qed.
-Print Assumptions C20_runtime_errors_wrapped.
+Print Assumptions C20_runtime_errors_wrapped_everywhere.
 
-(* ... and these are all: an exception leaves generate unwrapped only from a leaf without a handler
-   (context creation, look_for_number, name resolution of a function, the count conversion) reached
-   through top-level `var` / nested-template / count steps alone *)
+(* no escape route is left: an unwrapped exception would need a path execution cannot take *)
 Theorem C20_runtime_escape_routes :
-  forall path l e n,
-    escape path l e = EPy n ->
-    forallb transparent_step path = true /\ bare_leaf l = true.
+  forall path l e n, escape path l e = EPy n -> rooted path l = false.
 Proof. exact escape_raw_inv. Qed.
 Print Assumptions C20_runtime_escape_routes.
 
-(* count evaluation: ValueError / TypeError become a recipe error when the count is a SimpleValue *)
-Theorem C20_count_conversion_simple_value :
-  forall e, is_value_or_type_error e = true -> escape [STmplCount true] LCountConv e = EDGE.
-Proof. exact count_conv_simple_value. Qed.
-Print Assumptions C20_count_conversion_simple_value.
+(* ---------------------------------------------------------------- the one passage that remains open *)
+(* an exception raised by a plugin module while it is imported passes through (not a fault of the recipe's
+   shape; the model takes it from the environment) *)
+Example C20_ex_environment_failure_passes_through :
+  validate (mkEnv [] [("a.B", PCrash "RuntimeError:plugins.py:resolve_plugin_alternatives")]) 3 3
+           (YSeq [YMap [(YStr "plugin", YStr "a.B")]])
+  = Err (Internal "RuntimeError:plugins.py:resolve_plugin_alternatives").
+Proof. vm_compute. reflexivity. Qed.
 
-(* the escape routes exist (each reproduced on /repo, corpus/C20/known_findings.json) *)
-Example C20_refuted_toplevel_count_overflow :       (* count: inf *)
-  escape [STmplCount true] LCountConv (EPy "OverflowError") = EPy "OverflowError".
+(* ---------------------------------------------------------------- regression: the repaired defects *)
+Definition E0 := mkEnv [] [].
+Definition obj (rest : kvs) := YMap ((YStr "object", YStr "A") :: rest).
+Definition field_x (v : yaml) := obj [(YStr "fields", YMap [(YStr "x", v)])].
+Definition rr (args : yaml) := field_x (YMap [(YStr "random_reference", args)]).
+
+(* the documents that used to crash (C20-S01 .. S16), now each a DataGenError *)
+Definition repaired : list (env * yaml) :=
+  [(mkEnv [(("", "a.yml"), FBad LUnmarked)] [], YSeq [YMap [(YStr "include_file", YStr "a.yml")]]);
+   (mkEnv [(("", "a.yml"), FBad LValueError)] [], YSeq [YMap [(YStr "include_file", YStr "a.yml")]]);
+   (mkEnv [(("", "."), FDir)] [], YSeq [YMap [(YStr "include_file", YStr ".")]]);
+   (E0, YSeq [YMap [(YStr "macro", YSeq [YStr "a"])]]);
+   (E0, YSeq [YMap [(YStr "plugin", YStr "foo")]]);
+   (E0, YSeq [YMap [(YStr "plugin", YStr ".x")]]);
+   (mkEnv [] [("os.path", PNotPlugin)], YSeq [YMap [(YStr "plugin", YStr "os.path")]]);
+   (E0, YSeq [YMap [(YStr "snowfakery_version", YFloat FlNan)]]);
+   (E0, YSeq [obj [(YStr "fields", YMap [(YStr "", YStr "x")])]]);
+   (E0, YSeq [obj [(YStr "friends", YSeq [YMap [(YInt 5, YStr "v")]])]]);
+   (E0, YSeq [obj [(YStr "for_each", YMap [(YStr "value", YStr "x")])]]);
+   (E0, YSeq [YMap [(YStr "option", YSeq [YInt 1]); (YStr "default", YInt 3)]]);
+   (E0, YSeq [YMap [(YStr "option", YStr version_option); (YStr "default", YInt 7)]]);
+   (E0, YSeq [rr (YMap [(YStr "scope", YStr "y")])]);
+   (E0, YSeq [rr (YSeq [])]);
+   (E0, YSeq [rr (YSeq [YMap [(YStr "a", YStr "b")]])])].
+
+Example C20_ex_repaired_static_sites :
+  forallb (fun w => match validate (fst w) 3 3 (snd w) with Err (DGE _) => true | _ => false end)
+          repaired = true.
 Proof. vm_compute. reflexivity. Qed.
-Example C20_refuted_toplevel_count_not_simple :     (* count: {fake: Name} -> handler reads .definition *)
-  escape [STmplCount false] LCountConv (EPy "ValueError") = EPy "AttributeError".
+
+(* a macro whose friend template includes the macro again: detected like a cycle through `include:` *)
+Definition friend_cycle :=
+  YSeq [YMap [(YStr "macro", YStr "m");
+              (YStr "friends", YSeq [YMap [(YStr "object", YStr "B"); (YStr "include", YStr "m")]])];
+        YMap [(YStr "object", YStr "A"); (YStr "include", YStr "m")]].
+Example C20_ex_macro_friend_cycle_rejected : validate E0 3 5 friend_cycle = Err (DGE "").
 Proof. vm_compute. reflexivity. Qed.
-Example C20_refuted_toplevel_var_look_for_number :  (* - var: v / value: "." *)
-  escape [SVarExpr] LPost (EPy "ValueError") = EPy "ValueError".
+Example C20_ex_macro_include_cycle_rejected :
+  validate E0 3 5 (YSeq [YMap [(YStr "macro", YStr "m"); (YStr "include", YStr "m")];
+                         YMap [(YStr "object", YStr "A"); (YStr "include", YStr "m")]])
+  = Err (DGE "").
 Proof. vm_compute. reflexivity. Qed.
-Example C20_refuted_toplevel_var_plugin_attribute : (* - var: v / value: {Plugin.nosuch: 1} *)
-  escape [SVarExpr] LLookup (EPy "AttributeError") = EPy "AttributeError".
-Proof. vm_compute. reflexivity. Qed.
-Example C20_refuted_context_creation :              (* - var: snowfakery_locale / value: zz_ZZ *)
-  escape [] LCtx (EPy "AttributeError") = EPy "AttributeError".
-Proof. vm_compute. reflexivity. Qed.
+(* a file that includes itself, directly or through another file *)
+Example C20_ex_include_file_cycle_rejected :
+  let d := YSeq [YMap [(YStr "include_file", YStr "a.yml")]] in
+  validate (mkEnv [(("", "a.yml"), FDoc "k" d); (("k", "a.yml"), FDoc "k" d)] []) 5 3 d = Err (DGE "") /\
+  validate (mkEnv [(("", "a.yml"), FDoc "" d)] []) 5 3 d = Err (DGE "").
+Proof. vm_compute. split; reflexivity. Qed.
+
+(* the run-time escapes of C20-R1 .. R5, now wrapped *)
+Example C20_ex_repaired_runtime_sites :
+  escape [STmplCount] LCountConv (EPy "OverflowError") = EDGE /\      (* count: inf *)
+  escape [STmplCount] LCountConv (EPy "ValueError") = EDGE /\         (* count: {fake: Name} *)
+  escape [STmplCount] LLookup (EPy "AttributeError") = EDGE /\        (* count: {Plugin.nosuch: 1} *)
+  escape [SVarExpr] LPost (EPy "ValueError") = EDGE /\                (* - var: v / value: "." (before the look_for_number repair) *)
+  escape [SVarExpr] LLookup (EPy "AttributeError") = EDGE /\          (* - var: v / value: {Plugin.nosuch: 1} *)
+  escape [] LCtxTmpl (EPy "AttributeError") = EDGE /\                 (* unknown Faker locale *)
+  escape [] LCtxVar (EPy "AttributeError") = EDGE.
+Proof. vm_compute. repeat split. Qed.
 
 (* ---------------------------------------------------------------- non-vacuity *)
 Example C20_ex_valid_recipe :
@@ -230,8 +210,13 @@ Example C20_ex_rejected :
   = repeat (Err (DGE "")) 12.
 Proof. vm_compute. reflexivity. Qed.
 
+Example C20_ex_terminates_hypotheses :
+  (S (length (fenv E0)) < 3)%nat /\ load_file E0 3 [] "" friend_cycle ctx0 <> Err OutOfFuel.
+Proof. split; [vm_compute; auto|vm_compute; discriminate]. Qed.
+
 Example C20_ex_wrapped :
-  escape [STmplFriend; STmplField; SNested; STmplCount false] LCountConv (EPy "OverflowError") = EDGE /\
+  escape [STmplFriend; STmplField; SNested; STmplCount] LCountConv (EPy "KeyError") = EDGE /\
   escape [SVarExpr; SNested] LWrite (EPy "KeyError") = EDGE /\
-  escape [SVarExpr] LFunc (EPy "ZeroDivisionError") = EDGE.
+  escape [SVarExpr] LFunc (EPy "ZeroDivisionError") = EDGE /\
+  rooted [STmplFriend; STmplField; SNested; STmplCount] LCountConv = true.
 Proof. vm_compute. repeat split. Qed.
